@@ -47,6 +47,7 @@ type Result struct {
 	Generated, Distinct int64
 	Depth               int
 	Lines               []string // PrintT'd strings (unquoted JSON) in output order
+	Retries             int      // runs thrown away because of an internal TLC exception
 	Violated            string   // invariant/property name if violated
 	ErrorText           string   // other TLC error
 	Finished            bool
@@ -93,7 +94,40 @@ func Scratch(tag string) (string, error) {
 	return d, os.MkdirAll(d, 0o755)
 }
 
+// Run runs TLC. A run that dies of an internal TLC exception that a re-run does not reproduce (seen once in a fresh
+// sandbox: "Attempted to select nonexistent field "n" from the record [i |-> 1, n |-> ...]" - workers racing on the
+// normalisation of a shared record value) is repeated, the third time with one worker; PrintT lines are handed to
+// the caller only from the run that counts. An exception that persists is reported as it is.
 func Run(o Opts) (*Result, error) {
+	user := o.OnLine
+	for attempt := 1; ; attempt++ {
+		var buf []string
+		o.OnLine = func(l string) { buf = append(buf, l) }
+		if attempt == 3 {
+			o.Workers = 1
+		}
+		res, err := runOnce(o)
+		flaky := res != nil && res.Violated == "" && strings.Contains(res.ErrorText, "TLC threw an unexpected exception") && o.Workers != 1
+		if flaky && attempt < 3 {
+			fmt.Fprintf(os.Stderr, "tlc: internal exception in %s (attempt %d), running again\n", o.Cfg, attempt)
+			res.Cleanup()
+			continue
+		}
+		if res != nil {
+			res.Retries = attempt - 1
+			if user != nil {
+				for _, l := range buf {
+					user(l)
+				}
+			} else {
+				res.Lines = buf
+			}
+		}
+		return res, err
+	}
+}
+
+func runOnce(o Opts) (*Result, error) {
 	start := time.Now()
 	dir, err := Scratch(o.Module)
 	if err != nil {
